@@ -575,58 +575,113 @@ def run_property(modname, tier, seed, replay=None, n_override=None):
     if binary is None:
         say("[%s] model build failed: %s" % (pid, berr[-600:]))
 
-    # ---- 3. cases
+    # ---- 3. cases, 4. compare — in batches, so that a thorough run (10^5..10^6 cases) never
+    #      holds more than one batch of implementation / model outputs in memory.  Retained for
+    #      the later steps (shrinking, replay files, evidence samples, in-Coq cross-check,
+    #      extra_checks): the whole first batch, every case on which the oracle fails or model and
+    #      implementation disagree (at most 20 per failure signature), and the last case.
     rng = random.Random(seed)
-    cases = []
+    first = []
     corpus_dir = os.path.join(VERIF, "harness", "corpus", pid)
+    n = 0
     if replay:
         rp = json.loads(_rfile(replay))
-        cases = [rp["case"]] if "case" in rp else []
+        first = [rp["case"]] if "case" in rp else []
+        n = len(first)
     else:
         if os.path.isdir(corpus_dir):
             for f in sorted(os.listdir(corpus_dir)):
                 if f.endswith(".json"):
-                    cases.append(json.loads(_rfile(os.path.join(corpus_dir, f)))["case"])
+                    first.append(json.loads(_rfile(os.path.join(corpus_dir, f)))["case"])
         n = n_override or plugin.N[tier]
         if not proofs["ok"] or binary is None:
             n *= 3  # violation search: widen the exploration
         elif src_changed and not n_override:
             n *= 3  # the modelled source was edited since it was last compared: look harder
-        for c in plugin.gen(rng, tier):
-            cases.append(c)
-            if len(cases) >= n:
+        n = max(n, len(first))
+    n_corpus = len(first)
+    BATCH = int(getattr(plugin, "BATCH", 20000))
+    gen_it = iter(()) if replay else plugin.gen(rng, tier)
+
+    def next_batch(already, prefix):
+        out = list(prefix)
+        while len(out) < BATCH and already + len(out) < n:
+            try:
+                out.append(next(gen_it))
+            except StopIteration:
                 break
-    n_corpus = len(cases)
+        return out
+
+    cases, impl_res, enc = [], [], []
+    model_out = [] if binary is not None else None
+    mismatches, oracle_fail = [], []
+    total, n_mismatch, n_oracle_fail = 0, 0, 0
+    seen, nontriv = set(), 0
+    dist = {}
+    sig_count = {}
+    last = None
 
     ctx = mp.get_context("fork")
     with ctx.Pool(NCPU, initializer=_init_worker, initargs=(modname,)) as pool:
-        chunk = max(1, min(200, len(cases) // (NCPU * 4) or 1))
-        impl_res = pool.map(_impl_one, cases, chunksize=chunk) if cases else []
-        model_out = None
-        if binary is not None:
-            enc = [_encode(plugin, c, impl_res[i][0]) for i, c in enumerate(cases)]
-            model_out = run_model(binary, enc, pool)
-
-    # ---- 4. compare
-    mismatches, oracle_fail = [], []
-    seen, nontriv = set(), 0
-    dist = {}
-    for i, c in enumerate(cases):
-        res, why, nt = impl_res[i]
-        k = plugin.key(c) if hasattr(plugin, "key") else json.dumps(c, sort_keys=True)
-        if k not in seen:
-            seen.add(k)
-            if nt:
-                nontriv += 1
-        if hasattr(plugin, "classify"):
-            for tag in plugin.classify(c, res):
-                dist[tag] = dist.get(tag, 0) + 1
-        if why:
-            oracle_fail.append((i, why))
+        batch_no = 0
+        while True:
+            bc = next_batch(total, first if batch_no == 0 else [])
+            if not bc:
+                break
+            chunk = max(1, min(200, len(bc) // (NCPU * 4) or 1))
+            b_res = pool.map(_impl_one, bc, chunksize=chunk)
+            b_enc = b_mo = None
+            if binary is not None:
+                b_enc = [_encode(plugin, c, b_res[i][0]) for i, c in enumerate(bc)]
+                b_mo = run_model(binary, b_enc, pool)
+            for j, c in enumerate(bc):
+                res, why, nt = b_res[j]
+                k = plugin.key(c) if hasattr(plugin, "key") else json.dumps(c, sort_keys=True)
+                kd = hashlib.sha1(repr(k).encode()).digest()[:12]
+                if kd not in seen:
+                    seen.add(kd)
+                    if nt:
+                        nontriv += 1
+                if hasattr(plugin, "classify"):
+                    for tag in plugin.classify(c, res):
+                        dist[tag] = dist.get(tag, 0) + 1
+                mism = False
+                if b_mo is not None:
+                    mo = _canon_model(plugin, b_mo[j])
+                    mism = canon(res.get("out")) != canon(mo)
+                keep = batch_no == 0
+                if why:
+                    n_oracle_fail += 1
+                    sig = "o:" + re.sub(r"\d+", "N", str(why))[:80]
+                    sig_count[sig] = sig_count.get(sig, 0) + 1
+                    keep = keep or sig_count[sig] <= 20
+                if mism:
+                    n_mismatch += 1
+                    sig_count["m"] = sig_count.get("m", 0) + 1
+                    keep = keep or sig_count["m"] <= 20
+                if keep:
+                    idx = len(cases)
+                    cases.append(c)
+                    impl_res.append(b_res[j])
+                    if b_mo is not None:
+                        enc.append(b_enc[j])
+                        model_out.append(b_mo[j])
+                    if why:
+                        oracle_fail.append((idx, why))
+                    if mism:
+                        mismatches.append(idx)
+                else:
+                    last = (c, b_res[j], b_enc[j] if b_enc is not None else None, b_mo[j] if b_mo is not None else None)
+            total += len(bc)
+            batch_no += 1
+            if tier == "thorough" and batch_no > 1:
+                say("[%s] ... %d cases so far (%d mismatches, %d oracle failures)" % (pid, total, n_mismatch, n_oracle_fail))
+    if last is not None:
+        cases.append(last[0])
+        impl_res.append(last[1])
         if model_out is not None:
-            mo = _canon_model(plugin, model_out[i])
-            if canon(res.get("out")) != canon(mo):
-                mismatches.append(i)
+            enc.append(last[2])
+            model_out.append(last[3])
 
     known = [k for k in load_known() if k.get("property") == pid and k.get("kind") == "open"]
     violations = 0
@@ -727,7 +782,7 @@ def run_property(modname, tier, seed, replay=None, n_override=None):
                 "broken-correspondence",
                 {
                     "what": "model %s and implementation disagree on %d of %d cases"
-                    % (plugin.COQ_RUN[1], len(mismatches), len(cases)),
+                    % (plugin.COQ_RUN[1], n_mismatch, total),
                     "case": small,
                     "impl_out": canon(r.get("out")),
                     "impl_exception": r.get("exception"),
@@ -834,13 +889,13 @@ def run_property(modname, tier, seed, replay=None, n_override=None):
             "trusted_base": trusted,
             "theorems": proofs["theorems"],
             "axioms_per_theorem": proofs["axioms"],
-            "evaluations": len(cases),
+            "evaluations": total,
             "distinct_nontrivial": nontriv,
             "rule": plugin.RULE,
             "samples": samples,
-            "traces_validated_against_impl": (len(cases) - len(mismatches)) if model_out is not None else 0,
-            "model_impl_mismatches": len(mismatches),
-            "oracle_failures": len(oracle_fail),
+            "traces_validated_against_impl": (total - n_mismatch) if model_out is not None else 0,
+            "model_impl_mismatches": n_mismatch,
+            "oracle_failures": n_oracle_fail,
             "corpus_cases": n_corpus if not replay else 0,
             "vm_compute_crosschecked": vm_n,
             "distribution": dist,
@@ -858,6 +913,6 @@ def run_property(modname, tier, seed, replay=None, n_override=None):
             json.dump(ev, f, indent=1, default=str)
     say(
         "[%s] %s: %d cases (%d distinct non-trivial), %d mismatches, %d oracle failures, vm-checked %d, %.1fs"
-        % (pid, tier, len(cases), nontriv, len(mismatches), len(oracle_fail), vm_n, time.time() - t0)
+        % (pid, tier, total, nontriv, n_mismatch, n_oracle_fail, vm_n, time.time() - t0)
     )
     return 1 if violations else 0
